@@ -28,7 +28,8 @@ ASSUMPTIONS = [
     'the statement does not say which side an edge point belongs to; empty target bins are not judged',
     'tuple layout returned by bindown is (grid, values, error, widths) as every binner in the tree returns it',
 ]
-REQUIRED = {'input-form:integer': 0.1, 'input-form:float32': 0.05, 'native:explicit': 0.1, 'perm-native': 0.3, 'perm-target': 0.2, 'two-d': 0.15,
+RULE = RULE + ' ' + 'The spectrum and errors also arrive as integer arrays, single-precision arrays, read-only arrays and non-contiguous views of the same numbers.'
+REQUIRED = {'refused-call-then-reuse': 0.3, 'input-form:integer': 0.1, 'input-form:float32': 0.05, 'native:explicit': 0.1, 'perm-native': 0.3, 'perm-target': 0.2, 'two-d': 0.15,
             'errors': 0.15, 'target:partly-outside': 0.05, 'target:wholly-outside': 0.03}
 # coverage-guided extra (thorough tier): pure-Python taurex modules on this property's path, instrumented by atheris
 FUZZ = {'include': ['taurex.binning', 'taurex.util.util'], 'runs': 40000, 'workers': 4}
@@ -328,6 +329,22 @@ def check(case):
             if not close(np.asarray(rm[1])[judged], r1[judged], rtol=1e-12, atol=atol) or \
                not np.array_equal(np.asarray(rm[0]), stc):
                 out.fail('flux-bin_model', 'bin_model differs from bindown')
+        # a call that is refused (native grid in another order with a width array one element short: the caller catches
+        # the error) leaves nothing behind: the first call repeated on the same binner gives the first result again
+        if n >= 3:
+            refused = False
+            try:
+                with np.errstate(all='ignore'):
+                    fb.bindown(wn[::-1].copy(), f1[::-1].copy(), grid_width=w[:-1].copy())
+            except Exception:
+                refused = True
+            if refused:
+                out.cls('refused-call-then-reuse')
+                out.applies('flux-after-refused-call')
+                ra = cut(out, 'flux-bindown', run, fb, spec, err, True, True)
+                if not close(np.asarray(ra[1], dtype=float)[..., judged], got[..., judged], rtol=1e-12, atol=atol):
+                    out.fail('flux-after-refused-call', 'after a refused call the first call repeated gives %s, before %s'
+                             % (np.asarray(ra[1], dtype=float)[..., judged][:3], got[..., judged][:3]))
         # the same binner instance re-used on a different native grid of the same
         # length (a binner is applied to many spectra during a run): no state may
         # carry over from the previous call
